@@ -292,7 +292,9 @@ func (s *Server) serve(conn net.Conn, session string) {
 
 		err = e.Encode(resp)
 		if err != nil {
+			// the request stays unanswered, so the connection can't be kept in sync: drop it
 			s.Log.Printf("[ERROR] [%s] Error encoding KMIP response: %s", session, err)
+			break
 		}
 	}
 }
